@@ -51,6 +51,8 @@ structure HCtx where
   gift : Bool := false
   /-- gifts to escrows of auctions that did not exist (not reported until N grows) -/
   hidden : List (Nat × Denom × Int) := []
+  /-- the same gifts with the exact escrow address (used by the one-step predictor) -/
+  hiddenAt : List (Addr × Denom × Int) := []
   fault : Option Nat := none
   failhooks : List (String × Nat) := []
   listeners : Nat := 0
@@ -85,7 +87,9 @@ def ctxAfter (h : HCtx) (b : Block) : HCtx :=
         match addrAuction dst with
         | some a =>
           let n := b.dump.n.getD b.dump.numAuctions
-          { h with gift := true, hidden := if a ≥ n then h.hidden ++ [(a, d, amt)] else h.hidden }
+          { h with gift := true,
+                   hidden := if a ≥ n then h.hidden ++ [(a, d, amt)] else h.hidden,
+                   hiddenAt := if a ≥ n then h.hiddenAt ++ [(dst, d, amt)] else h.hiddenAt }
         | none => h
       else h
     | some (.fault k) => if b.isOk then { h with fault := some k } else h
@@ -909,11 +913,71 @@ def checkHooks (h : HCtx) (c : Obs) : CM Unit := do
       else if last.any (fun x => x.2.2 != args) then
         viol "C17" "hook-args" s!"`{b.opLine}`: {name}: listeners saw different arguments"
 
+/-! ### C02: what leaves / reaches a user's account -/
+
+/-- the change of user `u`'s balance of denom `d` the op is entitled to cause (`none` = the
+    data needed to say is missing) -/
+def expectedUserDelta (p c : Obs) (op : Op) (u : Acc) (d : Denom) : Option Int :=
+  let pp := p.s.params
+  match op with
+  | .msg (.create m) =>
+    some (if u = m.auctioneer then
+            - coinsAmt pp.creationFee d - (if d = m.sellDenom then m.sellAmt else 0)
+          else 0)
+  | .msg (.place bidder a _ _ _ _) =>
+    if u ≠ bidder then some 0
+    else match p.s.views[a]?, (c.s.views[a]?).bind (·.bids.getLast?) with
+      | some pv, some nb =>
+        some (- coinsAmt pp.bidFee d - (if d = pv.a.payDenom then nb.toPaying pv.a.payDenom else 0))
+      | _, _ => none
+  | .msg (.modify signer a bidId _ _ _) =>
+    if u ≠ signer then some 0
+    else match p.s.views[a]?, c.s.views[a]? with
+      | some pv, some cv =>
+        match pv.bids.find? (·.id == bidId), cv.bids.find? (·.id == bidId) with
+        | some ob, some nb =>
+          let pd := pv.a.payDenom
+          some (if d = pd then - (nb.toPaying pd - ob.toPaying pd) else 0)
+        | _, _ => none
+      | _, _ => none
+  | .msg (.cancel signer a) =>
+    if u ≠ signer then some 0
+    else match p.s.views[a]? with
+      | some pv => some (if d = pv.a.sellDenom then p.s.bank (.sell a) d else 0)
+      | none => none
+  | .gift src dst d' amt =>
+    some ((if u = src ∧ d = d' then - amt else 0) + (if dst = .user u ∧ d = d' then amt else 0))
+  | .fund v d' amt => some (if u = v ∧ d = d' ∧ 0 < amt then amt else 0)
+  | _ => some 0
+
+def checkUserDebit (p c : Obs) : CM Unit := do
+  let b := c.b
+  if !b.isOk || b.isBadOp then return
+  let k := b.kind
+  if k == "block" || k == "reset" then return
+  match b.op with
+  | none => pure ()
+  | some op =>
+    if b.tUnknown || p.b.dump.unknownSeen || b.dump.unknownSeen then
+      skip
+      return
+    if ["createF", "createB", "place", "modify", "cancel", "gift", "fund"].contains k then
+      count "C02" "user-debit"
+    for u in List.range 12 do
+      for d in universeDenoms do
+        match expectedUserDelta p c op u d with
+        | none => skip
+        | some e =>
+          let delta := c.s.bank (.user u) d - p.s.bank (.user u) d
+          if delta ≠ e then
+            viol "C02" s!"user-debit:{k}" s!"`{b.opLine}`: balance of u{u} in denom {d} changed by {delta}, the op accounts for {e}"
+
 /-! ### all transition monitors -/
 
 /-- `h` = context before the op, `h'` = after it -/
 def transChecks (h h' : HCtx) (p c : Obs) : CM Unit := do
   checkSupply h h' p c
+  checkUserDebit p c
   checkLifecycle h p c
   checkBids p c
   checkCancel p c
@@ -933,7 +997,7 @@ def opChecks (h : HCtx) (c : Obs) : CM Unit := do
 def knownCounts : List (String × String) :=
   [("C00", "parse-skip"),
    ("C01", "escrow-covered"), ("C01", "escrow-exact"),
-   ("C02", "supply"), ("C02", "escrows-empty"),
+   ("C02", "supply"), ("C02", "user-debit"), ("C02", "escrows-empty"),
    ("C03", "clearing"),
    ("C04", "price-bounds"),
    ("C05", "over-supply"),
